@@ -43,6 +43,9 @@ package advanced
 //@   exit calls(monitorJobCancelled) == 1 ==> calls(jobFunc) == 0
 //@   // and whichever way the goroutine ends, the job is finalised exactly once (its channels are closed once)
 //@   exit calls(finaliseJob) == 1
+//@   // a job that was started by an early-run request leaves the job table alone: the request has already taken the
+//@   // name out, and by now the name may belong to a newer job
+//@   exit calls(monitorJobStartedOnSignal) == 1 ==> calls(delete) == 0
 //@
 //@ // finalising happens once per job, by the goroutine that owns it
 //@ func finaliseJob
